@@ -348,4 +348,8 @@ def to_smt2(obl, extra_axioms=()):
     for p in obl.pc:
         s.add(p)
     s.add(z3.Not(obl.goal))
-    return s.to_smt2()
+    text = s.to_smt2()
+    # z3's simplifier splits seq.nth into its in-range / out-of-range halves (seq.nth_i, seq.nth_u),
+    # which only z3 understands; seq.nth == ite(in range, nth_i, nth_u), so mapping both back to
+    # seq.nth restores the original term and keeps the VC portable (cvc5).
+    return text.replace("seq.nth_i", "seq.nth").replace("seq.nth_u", "seq.nth")
